@@ -109,6 +109,11 @@ def solve(threads):
     # both `levels` signatures the library itself produces: int64 array (scalar level) and list
     for lv in (2, [1, 2]):
         steady_state_transport_solver(np.ones((6, 8)), z, prof, (80.0, 60.0), lv, modes=(4, 4), footprint=True, halo=20.0, precision="double")
+    if threads == 1:
+        # strided (non-contiguous) profile arrays are another numba signature
+        sprof = tuple(np.repeat(p, 2)[::2] for p in prof)
+        for lv in (2, [1, 2]):
+            steady_state_transport_solver(np.ones((6, 8)), z, sprof, (80.0, 60.0), lv, modes=(4, 4), footprint=True, halo=20.0, precision="double")
 for t in {"serial_first": (1, 4), "parallel_first": (4, 1), "parallel_only": (4,)}[order]:
     solve(t)
 os._exit(0)
